@@ -159,6 +159,9 @@ def run(ctx):
         return
     for i, o in zip(cheap, out):
         model[i] = o
+    # the extracted driver against Coq's own evaluation of the same definitions, on a sample of this run's lines
+    import wirecross
+    wirecross.cross(ctx, [(mlines[i], model[i]) for i in small], ctx.sub_rng("c02-coqcross"), 1200 if thorough else 120, name="c02_cross")
     # where the marshal model is too slow, the specification alone (SE: spec_enc and encodable at the position after the prefix)
     spec_only = [i for i in big if model[i] is None]
     ok, out, err = wg.run_each(drv, ["SE %s %d %s" % (cases[i]["bo"], cases[i]["prefix"], mlines[i].split(" ", 4 if cases[i]["op"] == "MT" else 3)[-1])
